@@ -451,6 +451,11 @@ func octalContinuation(p *eng.Prog, fd *eng.FuncDecl) (bool, string) {
 		}
 	}
 	if loopBody == nil {
+		if ok, why := octalTailRecursion(p, fd); ok {
+			return true, ""
+		} else if why != "" {
+			return false, why
+		}
 		return false, "octal escape no longer reads further digits in a bounded loop"
 	}
 	if bound != 2 {
@@ -1113,4 +1118,65 @@ func commentStopSet(fn *ssa.Function) (map[byte]bool, bool) {
 		}
 	}
 	return stop, true
+}
+
+// octalTailRecursion: the further digits of an octal escape are read by a helper that calls itself with a counter
+// that starts at 2 and goes down by one per digit; judged on the SSA form: the counter is tested against 0 before the
+// recursive call, the outer call passes the constant 2, and the recursive call is reached exactly for the bytes 0-7.
+func octalTailRecursion(p *eng.Prog, fd *eng.FuncDecl) (bool, string) {
+	var host *ssa.Function
+	for name, d := range p.AllDecls() {
+		if d == fd {
+			host = p.FuncExact(name)
+		}
+	}
+	if host == nil {
+		return false, ""
+	}
+	for _, oc := range eng.Calls(host, false, func(string, ssa.CallInstruction) bool { return true }) {
+		h := eng.StaticCallee(oc)
+		if h == nil || h.Blocks == nil || h.Pkg != host.Pkg || h == host {
+			continue
+		}
+		for _, rc := range eng.Calls(h, false, func(_ string, ci ssa.CallInstruction) bool { return eng.StaticCallee(ci) == h }) {
+			k := -1
+			for i, a := range rc.Common().Args {
+				if b, ok := a.(*ssa.BinOp); ok && b.Op == token.SUB && i < len(h.Params) && b.X == ssa.Value(h.Params[i]) {
+					if one, isC := eng.ConstInt(b.Y); isC && one == 1 {
+						k = i
+					}
+				}
+			}
+			if k < 0 {
+				continue
+			}
+			cnt := ssa.Value(h.Params[k])
+			guarded := eng.GuardedBy(h, rc.Block(), func(f eng.Fact) bool {
+				op, x, y, ok := f.Cmp()
+				if !ok || x != cnt {
+					return false
+				}
+				z, isC := eng.ConstInt(y)
+				return isC && ((op == token.NEQ && z == 0) || (op == token.GTR && z == 0) || (op == token.GEQ && z == 1))
+			})
+			if !guarded {
+				return false, "the recursive digit reader does not stop when its counter reaches 0"
+			}
+			if init, isC := eng.ConstInt(oc.Common().Args[k]); !isC || init != 2 {
+				return false, "octal escape reads a number of further digits other than two"
+			}
+			cont := eng.ByteReach(h, eng.DefaultByteVar, func(in ssa.Instruction) bool { return in == ssa.Instruction(rc) }, nil)
+			set := map[byte]bool{}
+			for b := 0; b < 256; b++ {
+				if cont[b] {
+					set[byte(b)] = true
+				}
+			}
+			if d := sameByteSet(set, rangeSet([2]byte{'0', '7'})); d != "" {
+				return false, "an octal escape continues on bytes other than 0-7: " + d
+			}
+			return true, ""
+		}
+	}
+	return false, ""
 }
